@@ -105,10 +105,18 @@ def run(ctx):
                 if not mk.any():
                     mk[0] = True
                 keys += [[bool(x) for x in mk], [int(x) for x in rng.choice(N, size=min(N, 4), replace=False)]]
+            # from the end: negative integers (Python and numpy), reversed and tail slices, negative / repeated index arrays
+            keys += [-1, -N, -int(rng.integers(1, N + 1)), np.int64(-int(rng.integers(1, N + 1))), slice(None, None, -1),
+                     slice(-int(rng.integers(1, N + 1)), None), rng.integers(-N, N, size=min(N + 2, 6))]
             for k in keys:
                 if isinstance(k, np.ndarray) and k.dtype == bool and not k.any():
                     k[0] = True
                 s[k]
+            # a slice of a slice, and a row of a slice
+            if N >= 3:
+                part = s[1:]
+                part[::-1]
+                part[-1]
             ops.append("getitem")
             s.copy(); ops.append("copy")
             s.mean(); ops.append("mean")
@@ -192,7 +200,8 @@ def run(ctx):
                                   "remembered from before the wrap" % k_, dict(desc, column=k_))
                     break
             if curves0 is not None:
-                s._cache.clear()
+                # (nothing is cleared by hand here: whatever the object remembered from the calls before the wrap is part of
+                # what the next get_orbit() may wrongly reuse)
                 for r, c0 in zip(rows, curves0):
                     c1 = rv_curve(s, r, tt).to_value(s["K"].unit)
                     extra += 1
